@@ -64,7 +64,8 @@ def reply_obs(lines):
             out[k] = tuple(sorted(v.split(",")))             # numeric ids may differ
         elif " builder=" in l:
             parts = v.split(":")
-            out[k] = (parts[0], parts[1], parts[-1].split("(")[0])   # handler, trigger, payload mode (binder names are the first method's)
+            # handler, trigger, payload mode (binder names are the first method's); `<none>`: no builder recognised
+            out[k] = (parts[0], parts[1], parts[-1].split("(")[0]) if len(parts) >= 2 else (v,)
         elif " ok=" in l or " err=" in l:
             parts = v.split(":")
             out[k] = tuple(parts[:3]) if parts[0] == "success" else tuple(parts[:2])
